@@ -1,10 +1,11 @@
 // S-harness for cocls::queue<item_t>, cocls::queue<void> and cocls::limited_queue<item_t> (C09, C10).
 // Reads cases from stdin, prints one canonical line per operation (see lean/Drivers/C09.lean, C10.lean).
-// Kinds: `lq <limit> [nl]` (C10 sequential, run_case), `q [nl|s1|w1|s1w1|w1m]` / `vq [nl|w1]` (C09 sequential, run_qcase;
+// Kinds: `lq <limit> [nl]` (C10 sequential, run_case), `q [nl|s1|w1|s1w1|w1m|vec]` / `vq [nl|w1]` (C09 sequential, run_qcase;
 // the token selects the Queue / CoroQueue / Lock template arguments: s1 = Queue single_item_queue, w1 = CoroQueue
 // single_item_queue, nl = primitives::no_lock (implied by s1/w1; w1m keeps std::mutex)),
 // `sq` / `svq` / `slq <limit>` (C09 / C10 scheduled interleavings, run_sched), `mtq` / `mtv` (C09 threads, run_mtcase).
 #include "common.h"
+#include <atomic>
 #include <cocls/queue.h>
 #include <cocls/async.h>
 #include <atomic>
@@ -23,13 +24,18 @@ using vh::test_exc;
 struct item_error : std::exception {
     const char *what() const noexcept override { return "item_error"; }
 };
+// per thread: in the scheduled kinds every operation has its own thread, and only the hand-over done by the
+// operation that armed it may throw
+static thread_local bool g_throw_on_move = false;
 struct item_t {
     static constexpr int GOOD = 0x600D, DEAD = 0xDEAD;
     std::unique_ptr<int> res;
     int val;
     int magic;
     item_t(int v) : res(v < 0 ? throw item_error() : new int(v)), val(v), magic(GOOD) {}
-    item_t(item_t &&o) noexcept : res(std::move(o.res)), val(o.val), magic(o.magic) {}
+    // the hand-over of an item (move construction) throws when armed (`popthrow`), before anything is moved
+    static bool check_throw() { if (g_throw_on_move) { g_throw_on_move = false; throw item_error(); } return true; }
+    item_t(item_t &&o) : res((check_throw(), std::move(o.res))), val(o.val), magic(o.magic) {}
     item_t &operator=(item_t &&o) noexcept { res = std::move(o.res); val = o.val; magic = o.magic; return *this; }
     item_t(const item_t &) = delete;
     item_t &operator=(const item_t &) = delete;
@@ -41,6 +47,20 @@ struct item_t {
     int get() const { return (magic == GOOD && res && *res == val) ? val : -666; }
 };
 inline std::ostream &operator<<(std::ostream &os, const item_t &it) { return os << it.get(); }
+
+// The item type of kind `q vec`: a std::vector<int>, i.e. a type with an initializer_list constructor, filled through the
+// emplace-style push(k, v) = k copies of v (`pushn k v`; `push v` is push(1, v)).  Printed as k*1000+v, -777 when it is
+// anything else (e.g. the two elements {k, v} that T{k, v} makes).
+struct vec_t : std::vector<int> {
+    using std::vector<int>::vector;
+    int get() const {
+        if (empty() || front() < 0 || front() >= 1000) return -777;
+        for (int x : *this) if (x != front()) return -777;
+        return (int)size() * 1000 + front();
+    }
+};
+inline std::ostream &operator<<(std::ostream &os, const vec_t &it) { return os << it.get(); }
+template <typename T> inline constexpr bool is_vec_v = std::is_same_v<T, vec_t>;
 
 // unblock_pop is protected in limited_queue (protected base); reach it through a derived class
 struct lq_t : limited_queue<item_t> {
@@ -215,6 +235,43 @@ async<void> consumer(qcase<Q, T> &c, int n) {
     }
 }
 
+// `cothrow`: a coroutine that calls pop() while the hand-over of the item throws, and would co_await the future
+template <typename Q, typename T>
+async<void> thrower(qcase<Q, T> &c, std::shared_ptr<std::string> res) {
+    if constexpr (!std::is_void_v<T> && !is_vec_v<T>) {
+        std::size_t id = c.pops.size();
+        c.pops.emplace_back();
+        c.pops[id].coro = true;
+        std::string out;
+        try {
+            g_throw_on_move = true;
+            future<T> f = c.q->pop();       // throws here when an item is handed over
+            g_throw_on_move = false;
+            T &v = co_await f;
+            out = "v:" + std::to_string(v.get());
+        } catch (const item_error &) {
+            g_throw_on_move = false;
+            c.pops.pop_back();
+            *res = "threw";
+            co_return;
+        } catch (const std::runtime_error &) {
+            g_throw_on_move = false;
+            c.pops.pop_back();
+            *res = "full";
+            co_return;
+        } catch (const await_canceled_exception &) {
+            out = "canceled";
+        } catch (const test_exc &e) {
+            out = "exc:" + std::to_string(e.code);
+        } catch (...) {
+            out = "other";
+        }
+        c.pops[id].out = out;
+        c.pops[id].done = true;
+    }
+    co_return;
+}
+
 // callback consumer (`cbcons n`): no coroutine; an awaiter with a resume function is subscribed to the pop future and
 // the callback - which runs *inside* the resolving call (push / unblock_pop / ~queue) - records the outcome and calls
 // pop() again (after a value) or empty() (after unblock_pop): re-entrant use, legal because the queue resolves
@@ -298,6 +355,9 @@ void run_qcase(std::istream &in) {
                 bool r;
                 if constexpr (std::is_void_v<T>) {
                     r = c.q->push();
+                } else if constexpr (is_vec_v<T>) {
+                    int v = w.size() > 1 ? atoi(w[1].c_str()) : 0;
+                    r = c.q->push(1, v);
                 } else {
                     int v = w.size() > 1 ? atoi(w[1].c_str()) : 0;
                     r = c.q->push(v);
@@ -306,10 +366,19 @@ void run_qcase(std::istream &in) {
             } catch (const std::runtime_error &) {
                 head << "push full";    // bounded Queue (single_item_queue) refused the item
             }
+        } else if (w[0] == "pushn" && w.size() > 2) {
+            // emplace-style push with constructor arguments: push(k, v) must make the item T(k, v) = k copies of v
+            // whether it is stored in the queue or handed to a waiting pop
+            if constexpr (is_vec_v<T>) {
+                bool r = c.q->push(atoi(w[1].c_str()), atoi(w[2].c_str()));
+                head << "push woke=" << r;
+            } else {
+                head << "bad-op";
+            }
         } else if (w[0] == "pushthrow") {
             // an item whose constructor throws: push() throws; a waiting pop whose promise it had taken completes as
             // canceled (the promise layer resolves the future without a value before the exception propagates)
-            if constexpr (std::is_void_v<T>) {
+            if constexpr (std::is_void_v<T> || is_vec_v<T>) {
                 head << "pushthrow n/a";
             } else {
                 try {
@@ -339,6 +408,44 @@ void run_qcase(std::istream &in) {
             } catch (const std::runtime_error &) {
                 c.pops.pop_back();      // bounded CoroQueue refused the promise: no future, no id
                 head << "pop full";
+            }
+        } else if (w[0] == "popthrow" || w[0] == "cothrow") {
+            // a pop() during which the hand-over of the item (its move construction into the future) throws: pop() throws
+            // to its caller (`popthrow`: plain call, as for .wait(); `cothrow`: from a coroutine that would co_await it),
+            // and the item must still be there for the next pop.  On an empty queue nothing is handed over.
+            if constexpr (std::is_void_v<T> || is_vec_v<T>) {
+                head << w[0] << " n/a";
+            } else if (w[0] == "popthrow") {
+                std::size_t id = c.pops.size();
+                c.pops.emplace_back();
+                try {
+                    g_throw_on_move = true;
+                    c.pops[id].f.reset(new future<T>([&] { return c.q->pop(); }));
+                    g_throw_on_move = false;
+                    std::string st = vh::outcome(*c.pops[id].f);
+                    if (st != "pending") c.pops[id].reported = true;
+                    head << "pop#" << id << " " << st;
+                } catch (const item_error &) {
+                    g_throw_on_move = false;
+                    c.pops.pop_back();
+                    head << "popthrow threw";
+                } catch (const std::runtime_error &) {
+                    g_throw_on_move = false;
+                    c.pops.pop_back();
+                    head << "pop full";
+                }
+            } else {
+                auto res = std::make_shared<std::string>();
+                thrower<Q, T>(c, res).detach();
+                head << "cothrow" << (res->empty() ? "" : " " + *res);
+            }
+            if constexpr (!std::is_void_v<T> && !is_vec_v<T>) {
+                if (!c.q->lock_is_free()) {
+                    std::cout << head.str() << "\n";
+                    fflush(stdout);
+                    fprintf(stderr, "DEADLOCK: pop() left the queue's lock locked when the hand-over of the item threw\n");
+                    _exit(42);
+                }
             }
         } else if (w[0] == "cons" && w.size() > 1) {
             int n = atoi(w[1].c_str());
@@ -784,6 +891,28 @@ void run_sched(std::istream &in, std::size_t limit) {
             run_op(hold, "pop#" + std::to_string(id),
                    [&q, r] { r->f.reset(new future<T>([&] { return q->pop(); })); },
                    [r] { auto st = vh::outcome(*r->f); if (st != "pending") r->reported = true; return st; }, head);
+        } else if (w[0] == "popthrow") {
+            if constexpr (std::is_void_v<T> || A::limited) {
+                head << "bad-op";
+            } else {
+                // the pop id is used up whether or not the call throws (ids are given when the line is read)
+                std::size_t id = pops.size();
+                pops.emplace_back();
+                prec *r = &pops[id];
+                auto threw = std::make_shared<bool>(false);
+                run_op(hold, "pop#" + std::to_string(id),
+                       [&q, r, threw] {
+                           try {
+                               g_throw_on_move = true;
+                               r->f.reset(new future<T>([&] { return q->pop(); }));
+                           } catch (const item_error &) { *threw = true; }
+                           g_throw_on_move = false;
+                       },
+                       [r, threw]() -> std::string {
+                           if (*threw) return "threw";
+                           auto st = vh::outcome(*r->f); if (st != "pending") r->reported = true; return st;
+                       }, head);
+            }
         } else if (w[0] == "upush" && w.size() > 1 && A::limited) {
             if constexpr (A::limited) {
                 int code = atoi(w[1].c_str());
@@ -828,7 +957,8 @@ int main() {
         using primitives::single_item_queue;
         using primitives::no_lock;
         const std::string cfg = w.size() > 3 ? w[3] : "";
-        if (kind == "q" && cfg == "nl") run_qcase<q_t<item_t, std_queue, std_queue, no_lock>, item_t>(std::cin);
+        if (kind == "q" && cfg == "vec") run_qcase<q_t<vec_t>, vec_t>(std::cin);
+        else if (kind == "q" && cfg == "nl") run_qcase<q_t<item_t, std_queue, std_queue, no_lock>, item_t>(std::cin);
         else if (kind == "q" && cfg == "s1") run_qcase<q_t<item_t, single_item_queue, std_queue, no_lock>, item_t>(std::cin);
         else if (kind == "q" && cfg == "w1") run_qcase<q_t<item_t, std_queue, single_item_queue, no_lock>, item_t>(std::cin);
         else if (kind == "q" && cfg == "s1w1") run_qcase<q_t<item_t, single_item_queue, single_item_queue, no_lock>, item_t>(std::cin);
